@@ -389,8 +389,11 @@ def run(tier):
     chk.proofs(extra_files=["Corr/K09.v"])
     rng = chk.rng
     cov = chk.coverage
-    found = False
     thorough = tier == "thorough"
+    hits = {}
+
+    def hit(tag, replay):
+        hits.setdefault(tag, []).append(replay)
 
     # ---------------- small component correspondences: int(), dirname/basename ----------------
     ints = ["", "70", " 70 ", "+70", "-70", "- 70", "7_0", "_70", "70_", "7__0", "0_7", "007", "+", "-", "0x10", "1e3",
@@ -399,8 +402,8 @@ def run(tier):
     alpha = "0123456789_+- \t\x0b\x1cx."
     for _ in range(1500 if thorough else 400):
         ints.append("".join(rng.choice(alpha[:12] if rng.random() < 0.7 else alpha) for _ in range(rng.randrange(1, 8))))
-    paths = ["/", "/a", "/a/b", "/a/b.gophermap", "/x.gophermap", "a", "", "/a/", "//", "//a", "/a//b", "a/b/", "/d1/d2/d3/x.gophermap",
-             "/\udcae/y", "/a b/c d"]
+    paths = ["/", "/a", "/a/b", "/a/b.gophermap", "/x.gophermap", "a", "", "/a/", "//", "//a", "/a//b", "a/b/",
+             "/d1/d2/d3/x.gophermap", "/\udcae/y", "/a b/c d"]
     for _ in range(600 if thorough else 150):
         paths.append("".join(rng.choice("/ab.") for _ in range(rng.randrange(0, 9))))
     r_int, r_path = impl_run([{"op": "pyint", "inputs": ints}, {"op": "pathfun", "inputs": paths}])
@@ -409,8 +412,6 @@ def run(tier):
             raise RuntimeError(r["err"] + "\n" + r.get("tb", ""))
     icases = ["(%s, %s)" % (coq_str(s), coq_opt(v, coq_z)) for s, v in zip(ints, r_int["res"])]
     pcases = ["(%s, (%s, %s))" % (coq_str(p), coq_str(d), coq_str(b)) for p, (d, b) in zip(paths, r_path["res"])]
-    m_int, e_int, n1 = coq_eval("C09", "k_int", IMPORTS, "chk_int", icases, shard=300, pre=PRE)
-    m_path, e_path, n2 = coq_eval("C09", "k_path", IMPORTS, "chk_path", pcases, shard=400, pre=PRE)
     for s, v in zip(ints, r_int["res"]):
         chk.count(("int", s), nontrivial=v is not None)
     for p in paths:
@@ -434,10 +435,8 @@ def run(tier):
         node["/" + e["path"]] = ({"dir": 0, "file": 1, "fifo": 2}[e.get("kind", "file")], False)
     for s in list(node):
         if node[s][0] == 0:
-            node[s] = (0, node.get((s if s else "") + "/gophermap", (3, False))[0] == 1)
-    sel_cases = []
-    for s in sorted(node):
-        sel_cases.append((s if s else "/", node[s][0], node[s][1]))
+            node[s] = (0, node.get(s + "/gophermap", (3, False))[0] == 1)
+    sel_cases = [(s if s else "/", node[s][0], node[s][1]) for s in sorted(node)]
     for s in ["/missing", "/missing.gophermap", "/nomap/none", "/a.txt/x.gophermap", "/withmap/nothing.gophermap"]:
         sel_cases.append((s, 3, False))
     r_sel, = impl_run([{"op": "gm_select", "tree": sel_tree, "config": CONFIG, "selectors": [c[0] for c in sel_cases]}])
@@ -445,20 +444,17 @@ def run(tier):
         raise RuntimeError(r_sel["err"] + "\n" + r_sel.get("tb", ""))
     scases = ["(((%d, %s), %s), (%s, %s))" % (k, coq_bool(hm), coq_str(s), coq_bool(o["can"]), coq_opt(o["src"], coq_str))
               for (s, k, hm), o in zip(sel_cases, r_sel["res"])]
-    m_sel, e_sel, n3 = coq_eval("C09", "k_select", IMPORTS, "chk_select", scases, shard=400, pre=PRE)
-    for (s, k, hm), o in zip(sel_cases, r_sel["res"]):
-        chk.count(("select", s), nontrivial=o["can"])
     # oracle, independent of the model: chosen exactly for directories holding a regular file
     # "gophermap" and for regular files named *.gophermap; reads that very file
     for (s, k, hm), o in zip(sel_cases, r_sel["res"]):
+        chk.count(("select", s), nontrivial=o["can"])
         want = (k == 0 and hm) or (k == 1 and s.endswith(".gophermap"))
         want_src = None if not want else (s if k == 1 else ("" if s == "/" else s) + "/gophermap")
         if o["can"] != want or (want and o["src"] != want_src):
-            found = True
-            chk.violation({"what": "BuckGophermapHandler chosen / not chosen against the documented rule, or reads another file",
-                           "selector": s, "node": ["dir", "file", "other", "missing"][k], "has_gophermap_file": hm,
-                           "canhandlerequest": o["can"], "opened": o["src"], "expected": [want, want_src], "tree": sel_tree},
-                          tag="selection")
+            hit("selection", {"what": "BuckGophermapHandler chosen / not chosen against the documented rule, or reads another file",
+                              "selector": s, "node": ["dir", "file", "other", "missing"][k], "has_gophermap_file": hm,
+                              "canhandlerequest": o["can"], "opened": o["src"], "expected": [want, want_src],
+                              "tree": sel_tree, "config": CONFIG})
 
     # ---------------- worlds ----------------
     nworld = {"wf": 24, "padded": 10, "raising": 6} if thorough else {"wf": 9, "padded": 4, "raising": 3}
@@ -493,46 +489,51 @@ def run(tier):
         if not r["ok"]:
             raise RuntimeError(r["err"] + "\n" + r.get("tb", ""))
 
-    ecases, ekeys = [], []      # chk_entries
-    mcases, mkeys = [], []      # chk_menu
     tcases = []                 # chk_twin
     seen_lines = set()
+    wjobs = []                  # per world: (preamble, case literals, keys)
     stats = {"maps": 0, "lines": 0, "wf_lines": 0, "link_lines": 0, "info_lines": 0, "raising_maps": 0,
-             "requests": 0, "oracle_entry_checks": 0, "oracle_protocol_checks": 0, "mapfile_relative_hits": 0}
+             "requests": 0, "oracle_entry_checks": 0, "oracle_protocol_checks": 0, "mapfile_relative_hits": 0,
+             "entry_list_cases": 0, "gopher_menu_cases": 0}
     EXC = {"IndexError": 0, "ValueError": 1}
+    sample_comp = sample_e2e = None
     for w, r in zip(worlds, wres):
-        existing = w["_existing"]
-        ex_lit = coq_list([coq_str(s) for s in existing])
+        pre = [PRE, "Definition ex : list str := %s." % coq_list([coq_str(s) for s in w["_existing"]])]
+        wcases, wkeys = [], []
         comps = r["res"]["components"]
-        for m, c in zip(w["_meta"], comps):
+
+        def add_case(mi, m, obs, key):
+            for fixed in (True, False):
+                wcases.append("(%s, (((%s, %s), (c%d, ex)), %s))" % (coq_bool(fixed), coq_str(m["selector"]),
+                                                                    coq_bool(m["is_file"]), mi, obs))
+                wkeys.append((fixed, key))
+
+        for mi, (m, c) in enumerate(zip(w["_meta"], comps)):
             stats["maps"] += 1
-            content = u(m["data"])
+            pre.append("Definition c%d : str := %s." % (mi, coq_str(u(m["data"]))))
             lines = [u(l) for l in split_lines(m["data"])]
             stats["lines"] += len(lines)
             replay_base = {"selector": m["selector"], "is_mapfile": m["is_file"], "gophermap_latin1": lat(m["data"]),
                            "tree": w["tree"], "config": CONFIG, "stream": m["stream"]}
             if c["handler"] != "BuckGophermapHandler":
-                found = True
-                chk.violation(dict(replay_base, what="a gophermap was not handed to BuckGophermapHandler",
-                                   handler=c["handler"], exception=c["exc"]), tag="selection")
+                hit("selection", dict(replay_base, what="a gophermap was not handed to BuckGophermapHandler",
+                                      handler=c["handler"], exception=c["exc"]))
                 continue
             if c["exc"] is not None:
                 stats["raising_maps"] += 1
-                impl_lit = "(inr %d)" % EXC.get(c["exc"], 2)
+                obs = "obs_raise %d" % EXC.get(c["exc"], 2)
                 if m["stream"] != "raising":
                     # prepare() raised on a gophermap the generator meant to be servable
-                    found = True
-                    chk.violation(dict(replay_base, what="prepare() raised on a gophermap without malformed lines",
-                                       exception=c["exc"]), tag="prepare-raises:" + str(c["exc"]))
+                    hit("prepare-raises:" + str(c["exc"]),
+                        dict(replay_base, what="prepare() raised on a gophermap without malformed lines", exception=c["exc"]))
             else:
                 ents = c["entries"]
-                impl_lit = "(inl %s)" % coq_list([coq_core(e["type"], e["name"], e["selector"], e["host"], e["port"],
+                obs = "obs_entries %s" % coq_list([coq_core(e["type"], e["name"], e["selector"], e["host"], e["port"],
                                                             e["gplus"]) for e in ents])
                 # ---- oracle 1: exactly one entry per line
                 if len(ents) != len(lines):
-                    found = True
-                    chk.violation(dict(replay_base, what="number of entries differs from number of gophermap lines",
-                                       lines=len(lines), entries=len(ents)), tag="entry-count")
+                    hit("entry-count", dict(replay_base, what="number of entries differs from number of gophermap lines",
+                                            lines=len(lines), entries=len(ents)))
                 else:
                     # ---- oracle 2: each well-formed line reads as documented
                     ddir = doc_dir(m["selector"], m["is_file"])
@@ -543,18 +544,19 @@ def run(tier):
                         want = twin_item(ddir, ln)
                         got = (e["type"], e["name"], e["selector"], e["host"], e["port"])
                         if want != got:
-                            found = True
                             bad = [f for f, a, b in zip(("type", "description", "selector", "host", "port"), want, got) if a != b]
                             tag = "spec-mismatch:" + "+".join(bad)
-                            if m["is_file"] and bad == ["selector"] and got[2] == m["selector"] + "/" + want[2][len(("" if ddir == "/" else ddir)) + 1:]:
+                            rel = want[2][len("" if ddir == "/" else ddir) + 1:]
+                            if m["is_file"] and bad == ["selector"] and got[2] == m["selector"] + "/" + rel:
                                 tag = "mapfile-relative-base"
                                 stats["mapfile_relative_hits"] += 1
-                            chk.violation(dict(replay_base, what="entry differs from the documented reading of its gophermap line",
-                                               line_index=i, line=ln, documented=list(want), implementation=list(got),
-                                               fields=bad), tag=tag)
-            ecases.append("((%s, %s), (%s, (%s, %s)))" % (coq_str(m["selector"]), coq_bool(m["is_file"]), coq_str(content),
-                                                        ex_lit, impl_lit))
-            ekeys.append(dict(replay_base, implementation=c))
+                            hit(tag, dict(replay_base, what="entry differs from the documented reading of its gophermap line",
+                                          line_index=i, line=ln, documented=list(want), implementation=list(got), fields=bad))
+            add_case(mi, m, "(%s)" % obs, dict(replay_base, kind="entries", implementation=c))
+            stats["entry_list_cases"] += 1
+            if sample_comp is None and c["entries"]:
+                sample_comp = {"kind": "component", "selector": m["selector"], "gophermap_latin1": lat(m["data"])[:200],
+                               "entries": c["entries"][:3]}
             nontriv = False
             for ln in lines:
                 wf = twin_wf(ln)
@@ -574,6 +576,7 @@ def run(tier):
             chk.count(("map", m["selector"], m["data"]), nontrivial=nontriv)
         # ---- end to end
         results = r["res"]["results"]
+        menus_seen = set()
         for (mi, proto, data, tls), out in zip(w["_rmeta"], results):
             stats["requests"] += 1
             m, c = w["_meta"][mi], comps[mi]
@@ -589,20 +592,18 @@ def run(tier):
             stats["oracle_protocol_checks"] += 1
             names = [e["name"] for e in c["entries"]]
             if out["exc"] is not None or ds is None:
-                found = True
-                chk.violation(dict(replay, what="the listing of a gophermap could not be read back as one item per line "
-                                                "(exception or unexpected framing)"), tag=f"render-failed:{proto}")
+                hit(f"render-failed:{proto}", dict(replay, what="the listing of a gophermap could not be read back as one item "
+                                                                "per line (exception or unexpected framing)"))
                 continue
             # one rendered item per gophermap line, in file order, same entries in every protocol
             if len(ds) != len(lines):
-                found = True
-                chk.violation(dict(replay, what="number of rendered items differs from number of gophermap lines",
-                                   lines=len(lines), items=len(ds)), tag=f"item-count:{proto}")
+                hit(f"item-count:{proto}", dict(replay, what="number of rendered items differs from number of gophermap lines",
+                                                lines=len(lines), items=len(ds)))
                 continue
             if ds != [as_rendered(proto, n) for n in names]:
-                found = True
-                chk.violation(dict(replay, what="protocol renders other descriptions / another order than the entry list "
-                                                "prepare() built", rendered=ds, entries=names), tag=f"protocol-divergence:{proto}")
+                hit(f"protocol-divergence:{proto}",
+                    dict(replay, what="protocol renders other descriptions / another order than the entry list prepare() built",
+                         rendered=ds, entries=names))
                 continue
             # documented reading, end to end
             ddir = doc_dir(m["selector"], m["is_file"])
@@ -611,9 +612,9 @@ def run(tier):
                     continue
                 want = twin_item(ddir, ln)
                 if ds[i] != as_rendered(proto, want[1]):
-                    found = True
-                    chk.violation(dict(replay, what="rendered description differs from the documented reading", line_index=i,
-                                       line=ln, documented=want[1], rendered=ds[i]), tag=f"protocol-spec-mismatch:{proto}")
+                    hit(f"protocol-spec-mismatch:{proto}",
+                        dict(replay, what="rendered description differs from the documented reading", line_index=i,
+                             line=ln, documented=want[1], rendered=ds[i]))
                     break
                 if items is not None:
                     it = items[i]
@@ -624,39 +625,61 @@ def run(tier):
                         tag = f"menu-spec-mismatch:{'+'.join(bad)}"
                         if m["is_file"] and bad == ["selector"] and it[2].startswith(m["selector"] + "/"):
                             tag = "mapfile-relative-base"
-                        found = True
-                        chk.violation(dict(replay, what="Gopher menu line differs from the documented reading (host/port "
-                                                        "default = this server)", line_index=i, line=ln,
-                                           documented=list(wantm), rendered=list(it)), tag=tag)
+                        hit(tag, dict(replay, what="Gopher menu line differs from the documented reading (host/port default = "
+                                                   "this server)", line_index=i, line=ln, documented=list(wantm), rendered=list(it)))
                         break
             if proto in ("gopher", "sgopher", "gopherplus", "sgopherplus"):
                 body = ob
                 if proto.endswith("plus"):
                     body = ob[re.match(rb"\+-?\d+\r\n", ob).end():]
-                mcases.append("((%s, %s), (%s, (%s, %s)))" % (coq_str(m["selector"]), coq_bool(m["is_file"]),
-                                                            coq_str(u(m["data"])), ex_lit, coq_str(u(body))))
-                mkeys.append(replay)
+                if (mi, body) not in menus_seen:        # identical menu bytes are evaluated once
+                    menus_seen.add((mi, body))
+                    add_case(mi, m, "(obs_menu %s)" % coq_str(u(body)), dict(replay, kind="menu"))
+                    stats["gopher_menu_cases"] += 1
+                if sample_e2e is None and body:
+                    sample_e2e = {"kind": "end-to-end", "protocol": proto, "selector": m["selector"],
+                                  "response_latin1": out["out"][:200]}
+        wjobs.append(("\n".join(pre), wcases, wkeys))
 
     # ---------------- K: model in Coq vs implementation ----------------
-    sh = 60
-    mf, ef, ns1 = coq_eval("C09", "k_entries_fixed", IMPORTS, "chk_entries_fixed", ecases, shard=sh, pre=PRE)
-    mp, ep, ns2 = coq_eval("C09", "k_entries_pinned", IMPORTS, "chk_entries_pinned", ecases, shard=sh, pre=PRE)
-    mmf, emf, ns3 = coq_eval("C09", "k_menu_fixed", IMPORTS, "chk_menu_fixed", mcases, shard=sh, pre=PRE)
-    mmp, emp, ns4 = coq_eval("C09", "k_menu_pinned", IMPORTS, "chk_menu_pinned", mcases, shard=sh, pre=PRE)
-    mt, et, ns5 = coq_eval("C09", "k_twin", IMPORTS, "chk_twin", tcases, shard=400, pre=PRE)
-    errors = [e for e in (e_int, e_path, e_sel, ef, ep, emf, emp, et) if e]
-    fixed_ok = not mf and not mmf and not ef and not emf
-    pinned_ok = not mp and not mmp and not ep and not emp
+    import concurrent.futures
+
+    def eval_world(arg):
+        k, (pre, wcases, wkeys) = arg
+        return coq_eval("C09", "k_world_%d" % k, IMPORTS, "chk_world", wcases, shard=100000, pre=pre)
+
+    small = [("k_int", "chk_int", icases, 300), ("k_path", "chk_path", pcases, 400), ("k_select", "chk_select", scases, 400),
+             ("k_twin", "chk_twin", tcases, 250)]
+    with concurrent.futures.ThreadPoolExecutor(max_workers=6) as exr:
+        fut_small = [exr.submit(coq_eval, "C09", nm, IMPORTS, ck, cs, sh, 600, PRE) for nm, ck, cs, sh in small]
+        world_out = list(exr.map(eval_world, enumerate(wjobs)))
+        (m_int, e_int, n1), (m_path, e_path, n2), (m_sel, e_sel, n3), (mt, et, n5) = [f.result() for f in fut_small]
+    errors = [e for e in (e_int, e_path, e_sel, et) if e]
+    mis = {True: [], False: []}         # model variant -> mismatching keys
+    nshards = n1 + n2 + n3 + n5
+    for (pre, wcases, wkeys), (mm, ee, ns) in zip(wjobs, world_out):
+        nshards += ns
+        if ee:
+            errors.append(ee)
+        for i in mm:
+            fixed, key = wkeys[i]
+            mis[fixed].append(key)
+    fixed_ok = not mis[True] and not errors
+    pinned_ok = not mis[False] and not errors
     # the pinned model differs from the repaired one only for relative links in *.gophermap files
-    only_mapfile = all(ekeys[i]["is_mapfile"] for i in mf) and all(mkeys[i]["is_mapfile"] for i in mmf)
+    only_mapfile = all(k["is_mapfile"] for k in mis[True])
     variant = "repaired" if fixed_ok else ("pinned" if pinned_ok else "neither")
+
+    def brief(keys):
+        return [{k: key.get(k) for k in ("kind", "protocol", "selector", "gophermap_latin1", "implementation", "response_latin1")}
+                for key in keys[:5]]
+
     cov["correspondence"] = {
         "int_cases": len(icases), "path_cases": len(pcases), "selection_cases": len(scases),
-        "entry_list_cases": len(ecases), "gopher_menu_cases": len(mcases), "spec_twin_lines": len(tcases),
-        "shards": n1 + n2 + n3 + ns1 + ns2 + ns3 + ns4 + ns5,
+        "entry_list_cases": stats["entry_list_cases"], "gopher_menu_cases": stats["gopher_menu_cases"],
+        "spec_twin_lines": len(tcases), "shards": nshards,
         "mismatches": {"int": len(m_int), "path": len(m_path), "selection": len(m_sel), "twin": len(mt),
-                       "entries_vs_repaired_model": len(mf), "entries_vs_pinned_model": len(mp),
-                       "menu_vs_repaired_model": len(mmf), "menu_vs_pinned_model": len(mmp)},
+                       "vs_repaired_model": len(mis[True]), "vs_pinned_model": len(mis[False])},
         "implementation_matches_model_variant": variant, "errors": errors,
     }
     cov["oracle"] = stats
@@ -664,23 +687,25 @@ def run(tier):
                         "streams": "wf = every line well-formed by the documents; padded = white space around fields, "
                                    "indented info, empty description, >4 fields, int() extras (no raise expected); "
                                    "raising = one or two malformed lines (component level only)"}
-    if ecases:
-        chk.sample({"kind": "component", "selector": ekeys[1]["selector"], "gophermap_latin1": ekeys[1]["gophermap_latin1"][:200],
-                    "entries": (ekeys[1]["implementation"]["entries"] or [])[:3]})
-    if mkeys:
-        chk.sample({"kind": "end-to-end", "protocol": mkeys[0]["protocol"], "selector": mkeys[0]["selector"],
-                    "response_latin1": mkeys[0]["response_latin1"][:200]})
+    for smp in (sample_comp, sample_e2e):
+        if smp:
+            chk.sample(smp)
+
+    # ---------------- verdict ----------------
+    for tag in sorted(hits):
+        first = min(hits[tag], key=lambda h: (len(h.get("gophermap_latin1", "")), h.get("selector", "")))
+        first = dict(first, occurrences=len(hits[tag]),
+                     how_to_replay="./check C09 --replay <this file>  (builds the tree, asks the real handler and the request)")
+        chk.violation(first, tag=tag)
+    found = bool(hits)
+    cov["oracle"]["hits_by_tag"] = {t: len(v) for t, v in hits.items()}
     k_broken = bool(m_int or m_path or m_sel or mt or errors) or not (fixed_ok or (pinned_ok and only_mapfile))
     if variant == "pinned" and not stats["mapfile_relative_hits"]:
         k_broken = True     # the code matches the pinned variant but the oracle did not exhibit the difference
     if k_broken:
         detail = {"int": [ints[i] for i in m_int[:10]], "path": [paths[i] for i in m_path[:10]],
                   "selection": [sel_cases[i] for i in m_sel[:10]], "twin": [tcases[i][:300] for i in mt[:5]],
-                  "entries_vs_repaired": [{k: ekeys[i][k] for k in ("selector", "gophermap_latin1", "implementation")} for i in mf[:5]],
-                  "entries_vs_pinned": [{k: ekeys[i][k] for k in ("selector", "gophermap_latin1", "implementation")} for i in mp[:5]],
-                  "menu_vs_repaired": [{k: mkeys[i][k] for k in ("protocol", "selector", "gophermap_latin1", "response_latin1")} for i in mmf[:5]],
-                  "menu_vs_pinned": [{k: mkeys[i][k] for k in ("protocol", "selector", "gophermap_latin1", "response_latin1")} for i in mmp[:5]],
-                  "errors": errors}
+                  "vs_repaired_model": brief(mis[True]), "vs_pinned_model": brief(mis[False]), "errors": errors}
         chk.correspondence_broken("K09 (gophermap classifier / Gopher0 menu / selection / int / spec twin)", detail, found)
     chk.finish_proofs(found)
     cov["rule"] = ("generated gophermaps (info, blank, links with 1-4 fields, absolute/relative/URL: selectors, remote hosts, ports, "
@@ -698,6 +723,36 @@ def run(tier):
         "HTML/WML/gemini/spartan renderings are read back by the harness (description texts only); their markup is C06/C13's subject",
         "well-formed (wf_gmline): one line, no white space at either end of any field or of an info line, 2..4 tab-separated fields, "
         "type + NON-EMPTY description, port empty or <= 4300 ASCII digits",
+        "both model variants are evaluated: 'repaired' (relative links of a *.gophermap file resolved against the directory the file "
+        "is in; the positive theorems) and 'pinned' (against the file's own selector); K holds when the code matches the repaired "
+        "variant, or matches the pinned one and the oracle exhibited the difference on the real code",
     ]
     chk.notes["model_variant_matching_implementation"] = variant
     return chk.finish("proof")
+
+
+def replay(path):
+    """Re-run one recorded violation against the real code and print what it does now."""
+    import json
+    with open(path) as f:
+        rp = json.load(f)
+    sel = rp.get("selector")
+    reqs = []
+    if rp.get("request_latin1") is not None:
+        reqs.append({"data": rp["request_latin1"], "tls": rp.get("tls", False)})
+    res, = impl_run([{"op": "gm_world", "tree": rp.get("tree", []), "config": rp.get("config"), "maps": [sel] if sel else [],
+                      "requests": reqs}])
+    if not res["ok"]:
+        print(res["err"])
+        return 2
+    out = {"selector": sel, "component": res["res"]["components"], "responses": res["res"]["results"]}
+    if rp.get("line") is not None and sel:
+        ddir = doc_dir(sel, rp.get("is_mapfile", False))
+        out["documented_reading_of_line"] = twin_item(ddir, rp["line"]) if twin_wf(rp["line"]) else "not well-formed"
+        comp = res["res"]["components"][0]
+        if comp.get("entries") and rp.get("line_index") is not None and rp["line_index"] < len(comp["entries"]):
+            e = comp["entries"][rp["line_index"]]
+            out["implementation_entry_now"] = [e["type"], e["name"], e["selector"], e["host"], e["port"]]
+            out["still_differs"] = list(out["documented_reading_of_line"]) != out["implementation_entry_now"]
+    print(json.dumps(out, indent=1, ensure_ascii=True, default=repr))
+    return 1 if out.get("still_differs") else 0
